@@ -217,6 +217,8 @@ NUM_EXPRS = [
     "if_null(NULL, decimal(9007199254740993))", "decimal('9007199254740993')",
     "9007199254740993 / 1.0", "9007199254740993 % 2.5",
     "[decimal(9007199254740993)][0]", "decimal(2147483648 * 4194304 + 1)",
+    # ints beyond the host's default int <-> text limit of 4300 digits
+    "pow(10, 5000)", "pow(10, 4300) - 1", "0 - pow(7, 6000)", "pow(10, 4299)",
 ]
 
 
